@@ -207,6 +207,22 @@ func Mod(a, b *Term) *Term {
 		_, m := floorDivMod(a.Val, b.Val)
 		return BigC(m)
 	}
+	// dec(o, w, s) lies in [0, 256^w) (ax_enc_dec; the engine only forms dec over w bytes): reducing it modulo
+	// 256^w or a multiple is the identity, and mod (mod x m) m = mod x m
+	if b.IsConst() && b.Val.Sign() > 0 {
+		if a.Op == "app" && a.Name == "dec" && len(a.Args) == 3 && a.Args[1].IsConst() && a.Args[1].Val.IsInt64() {
+			w := a.Args[1].Val.Int64()
+			if w >= 1 && w <= 8 {
+				lim := new(big.Int).Lsh(big.NewInt(1), uint(8*w))
+				if b.Val.Cmp(lim) >= 0 {
+					return a
+				}
+			}
+		}
+		if a.Op == "mod" && a.Args[1].IsConst() && a.Args[1].Val.Cmp(b.Val) == 0 {
+			return a
+		}
+	}
 	return mk("mod", SInt, a, b)
 }
 
